@@ -405,11 +405,27 @@ def consumers(run, sym_u, name, ops, seed, idx):
     with contextlib.redirect_stdout(io.StringIO()):
         rg = refinegrains.refinegrains()
     inputs = {0: ubiA, 1: oa @ ubiA, 2: ubiB, 3: ob @ ubiB}
+    # every second case: the grain objects have been refined since the ubi file was read (the normal state of a
+    # refinegrains object: grains[(name, scan)] holds the fitted matrix, ubisread[name] the one from the file), one
+    # grain object per scan.  Each grain is then reduced within ITS OWN orbit.
+    diverged = bool(idx % 2)
+    scans = ("scan", "scan2") if diverged else ("scan",)
+    ginputs = {}
     for k, u in inputs.items():
         rg.ubisread[k] = u.copy()
-        g = grain.grain(u.copy(), translation=r.uniform(-1, 1, 3))
-        g.U, g.unitcell, g.UB          # fill the caches: makeuniq has to refresh them
-        rg.grains[(k, "scan")] = g
+        for sname in scans:
+            gu = u.copy()
+            if diverged:
+                dR = xtal.rot_axis_angle(r.normal(size=3), np.radians(float(r.uniform(0.05, 0.5))))
+                gu = ops[int(r.integers(len(ops)))] @ (u @ dR.T) * (1 + float(r.uniform(-2e-3, 2e-3)))
+                if gap(gu) <= 1e-6 * np.abs(gu).max():
+                    gu = u.copy()
+            ginputs[(k, sname)] = gu
+            g = grain.grain(gu.copy(), translation=r.uniform(-1, 1, 3))
+            g.U, g.unitcell, g.UB          # fill the caches: makeuniq has to refresh them
+            rg.grains[(k, sname)] = g
+    if diverged:
+        run.count("makeuniq_runs_grains_refined_since_read")
     try:
         with contextlib.redirect_stdout(io.StringIO()):
             rg.makeuniq(name)
@@ -419,17 +435,28 @@ def consumers(run, sym_u, name, ops, seed, idx):
         run.count("makeuniq_runs")
         for k, u in inputs.items():
             orbit = [o @ u for o in ops]
-            for what, got in (("ubisread", rg.ubisread[k]), ("grains", rg.grains[(k, "scan")].ubi)):
-                if not member(orbit, np.asarray(got, float), 1e-9 * scale):
-                    V("makeuniq:not-in-orbit:" + name, "makeuniq: %s[%d] is not a symmetry-equivalent of what was stored" % (what, k))
-            g = rg.grains[(k, "scan")]
-            if np.abs(np.linalg.inv(g.UB) - g.ubi).max() > 1e-9 * scale or np.abs(g.U @ g.B - g.UB).max() > 1e-9 / scale:
-                V("makeuniq:stale-cache:" + name, "makeuniq: grain %d still serves U/UB of the matrix it had before" % k)
+            if not member(orbit, np.asarray(rg.ubisread[k], float), 1e-9 * scale):
+                V("makeuniq:not-in-orbit:" + name, "makeuniq: ubisread[%d] is not a symmetry-equivalent of what was stored" % k)
+            for sname in scans:
+                g = rg.grains[(k, sname)]
+                if not member([o @ ginputs[(k, sname)] for o in ops], np.asarray(g.ubi, float), 1e-9 * scale):
+                    V("makeuniq:not-in-orbit:" + name, "makeuniq: grains[(%d, %r)] is not a symmetry-equivalent of the matrix "
+                      "that grain had%s" % (k, sname, " (refined since the file was read)" if diverged else ""))
+                if np.abs(np.linalg.inv(g.UB) - g.ubi).max() > 1e-9 * scale or np.abs(g.U @ g.B - g.UB).max() > 1e-9 / scale:
+                    V("makeuniq:stale-cache:" + name, "makeuniq: grain %d still serves U/UB of the matrix it had before" % k)
         for a, b in ((0, 1), (2, 3)):
-            if np.abs(rg.ubisread[a] - rg.ubisread[b]).max() > 1e-9 * scale or \
-                    np.abs(rg.grains[(a, "scan")].ubi - rg.grains[(b, "scan")].ubi).max() > 1e-9 * scale or \
-                    np.abs(rg.grains[(a, "scan")].ubi - rg.ubisread[a]).max() > 1e-9 * scale:
+            bad = np.abs(rg.ubisread[a] - rg.ubisread[b]).max() > 1e-9 * scale
+            if not diverged:
+                bad = bad or np.abs(rg.grains[(a, "scan")].ubi - rg.grains[(b, "scan")].ubi).max() > 1e-9 * scale or \
+                    np.abs(rg.grains[(a, "scan")].ubi - rg.ubisread[a]).max() > 1e-9 * scale
+            if bad:
                 V("makeuniq:equivalents-differ:" + name, "makeuniq: symmetry-equivalent grains %d and %d are not stored as one matrix" % (a, b))
+        # canonical = idempotent: a second reduction changes nothing
+        before = {kk: np.array(gg.ubi) for kk, gg in rg.grains.items()}
+        with contextlib.redirect_stdout(io.StringIO()):
+            rg.makeuniq(name)
+        if any(np.abs(rg.grains[kk].ubi - before[kk]).max() > 1e-9 * scale for kk in before):
+            V("makeuniq:not-idempotent:" + name, "a second makeuniq(%r) changed a grain's matrix" % name)
     # ---- uniq_grain_list: equivalents at one place are one grain; a rotated or a displaced grain is another one
     tolang, toldist = 0.5, 0.1
     for _ in range(20):
